@@ -1,4 +1,5 @@
 import Astria.Ledger.Theorems
+import Astria.Ledger.History
 /-
   C03 — Transactions are atomic and execute at most once, in nonce order.
 -/
@@ -35,5 +36,12 @@ example :
     let s : State := { postAspen := true, postBlackburn := true, sudo := "s", ibcSudo := "i" }
     let tx : Tx := ⟨"a0", 0, [.sudoChange "a1"]⟩
     successes tx { s with sudo := "a0" } [tx, tx] = 1 := by decide
+
+/-- **At most once, every mixed history.**  Along any sequence of transactions of any signers
+    (taking effect or failing), ICS20 receives / timeouts / acknowledgements and block ends, from
+    any state, a given signed transaction takes effect at most once: packets and block ends never
+    move a nonce (`stepOp_nonce_mono`), so nothing re-opens the nonce gate. -/
+theorem C03_no_replay_history (tx : Tx) (ops : List Op) (s : State) : successesOp tx s ops ≤ 1 :=
+  no_replay_history tx ops s
 
 end Astria
